@@ -531,7 +531,9 @@ func vfMutate(t *rapid.T, doc vfMap, other vfMap, i int) (desc string) {
 		}
 		s := vfPick(t, l+"list", lists)
 		lst := s.get().(vfList)
-		elem := vfPick(t, l+"elem", []any{nil, nil, 7, "str", true, vfMap{}, vfList{}, vfMap{"name": nil}, 1.5})
+		elem := vfPick(t, l+"elem", []any{nil, nil, 7, "str", true, vfMap{}, vfList{}, vfMap{"name": nil}, 1.5,
+			// lines of an upstream list with a damaged domain part
+			"[/]quic://dns.example.net", "[/]quic://dns.example.net", "[/", "[//]1.1.1.1", "[/a/", "quic://"})
 		if len(lst) == 0 || vfChance(t, l+"elem_append", 40) {
 			s.set(append(lst, vfClone(elem)))
 		} else {
